@@ -44,6 +44,8 @@ MIH = "tangelo/problem_decomposition/incremental/incremental_helper.py"
 ONI = "tangelo/problem_decomposition/oniom/_helpers/helper_classes.py"
 DMETF = "tangelo/problem_decomposition/dmet/dmet_problem_decomposition.py"
 QPEF = "tangelo/algorithms/projective/qpe.py"
+TSU = "tangelo/toolboxes/unitary_generator/trotter_suzuki.py"
+TGSYMPY = "tangelo/linq/target/target_sympy.py"
 ISP = "tangelo/toolboxes/molecular_computation/integral_solver_pyscf.py"
 
 FIRE = [
@@ -122,6 +124,12 @@ FIRE = [
     ("qft-swaps-one-short", "C20", [(AU, "    for qubit_index in range(n//2):\n        gate_list += [Gate(\"SWAP\"", "    for qubit_index in range((n - 1)//2):\n        gate_list += [Gate(\"SWAP\"")], "K9.qft"),
     ("qpe-phase-lsb-first", "C20", [(QPEF, "        return sum([0.5**(i+1) for i, b in enumerate(bitstring) if b == \"1\"])", "        return sum([0.5**(i+1) for i, b in enumerate(bitstring[::-1]) if b == \"1\"])")], "K9.phase-readout"),
     ("rdm-mirrored-element-not-conjugated", "C13", [(VQE, '        for key in self.molecule.fermionic_hamiltonian.terms:\n            # Ignore constant / empty term\n            if not key:\n                continue\n', '        filled_terms = set()\n        for key in self.molecule.fermionic_hamiltonian.terms:\n            # Ignore constant / empty term\n            if not key or key in filled_terms:\n                continue\n', (0, 2)), (VQE, '            elif length == 4:\n                rdm2_spin[iele, lele, jele, kele] += opt_energy2\n\n        # save rdm frequency dictionary\n', '            elif length == 4:\n                rdm2_spin[iele, lele, jele, kele] += opt_energy2\n\n            conj_key = tuple((index, 1 - action) for index, action in reversed(key))\n            if conj_key != key:\n                filled_terms.add(conj_key)\n                if length == 2:\n                    rdm1_spin[jele, iele] += opt_energy2\n                elif length == 4:\n                    rdm2_spin[lele, iele, kele, jele] += opt_energy2\n\n        # save rdm frequency dictionary\n')], "K8.index-placement"),
+    ("unitary-cache-key-without-control", "C06", [(TSU, '        if method == "time":\n            return trotterize(self.qubit_hamiltonian, self.time*n_steps, self.n_trotter_steps, self.trotter_order, control=control)\n', '        key = (method, n_steps)\n        cache = self.__dict__.setdefault("_built", dict())\n        if key in cache:\n            return cache[key]\n        if method == "time":\n            cache[key] = trotterize(self.qubit_hamiltonian, self.time*n_steps, self.n_trotter_steps, self.trotter_order, control=control)\n            return cache[key]\n')], "K1.cache-key"),
+    ("suzuki-higher-order-fraction", "C06", [(AU, "        time_factor = 1 / (4 - 4 ** (1 / (order - 1)))", "        time_factor = 1 / (4 - 4 ** (1 / (order // 2 + 1)))")], "K9.suzuki"),
+    ("sympy-probabilities-chopped", "C01", [(TGSYMPY, "            prob = simplify(prob, tolerance=1e-4).evalf()", "            prob = simplify(prob, tolerance=1e-4).evalf(chop=1e-4)")], "K9.probability-cutoff"),
+    ("frequency-threshold-literal", "C01", [(BACK, "            if (frequency - self.freq_threshold) >= 0.:", "            if frequency >= 1e-6:")], "K9.probability-cutoff"),
+    ("complex-detection-by-isinstance", "C02", [(BACK, "            if type(coef) in {complex, np.complex64, np.complex128}:\n                are_coefficients_real = False\n\n        # If the underlying operator is hermitian, expectation value is real and can be computed right away\n        if are_coefficients_real:\n            return self._get_variance_from_frequencies", "            if isinstance(coef, complex):\n                are_coefficients_real = False\n\n        # If the underlying operator is hermitian, expectation value is real and can be computed right away\n        if are_coefficients_real:\n            return self._get_variance_from_frequencies")], "K"),
+    ("sympy-expectation-transpose", "C02", [(TGSYMPY, "        eigenvalue = Dagger(prepared_state) * operator * prepared_state", "        eigenvalue = prepared_state.T * operator * prepared_state")], "K9.sympy-expectation"),
     # ---- C06
     ("ladder-not-reversed", "C06", [(AU, "    gates += cnot_ladder_gates[::-1]", "    gates += cnot_ladder_gates")], "K9.exp-pauliword"),
     ("negative-angle-offset", "C06", [(AU, "    angle = 2.*coef if coef >= 0. else 4*np.pi+2*coef", "    angle = 2.*coef if coef >= 0. else 2*np.pi+2*coef")], "K9.angle-law"),
@@ -267,6 +275,9 @@ SILENT = [
     ("qpe-phase-spelling", "C20", [(QPEF, "        return sum([0.5**(i+1) for i, b in enumerate(bitstring) if b == \"1\"])", "        return sum(int(b) / 2**(i+1) for i, b in enumerate(bitstring))")]),
     ("rdm-mirrored-element-conjugated", "C13", [(VQE, '        for key in self.molecule.fermionic_hamiltonian.terms:\n            # Ignore constant / empty term\n            if not key:\n                continue\n', '        filled_terms = set()\n        for key in self.molecule.fermionic_hamiltonian.terms:\n            # Ignore constant / empty term\n            if not key or key in filled_terms:\n                continue\n', (0, 2)), (VQE, '            elif length == 4:\n                rdm2_spin[iele, lele, jele, kele] += opt_energy2\n\n        # save rdm frequency dictionary\n', '            elif length == 4:\n                rdm2_spin[iele, lele, jele, kele] += opt_energy2\n\n            conj_key = tuple((index, 1 - action) for index, action in reversed(key))\n            if conj_key != key:\n                filled_terms.add(conj_key)\n                if length == 2:\n                    rdm1_spin[jele, iele] += np.conj(opt_energy2)\n                elif length == 4:\n                    rdm2_spin[lele, iele, kele, jele] += np.conj(opt_energy2)\n\n        # save rdm frequency dictionary\n')]),
     ("reindex-fixed-width-spelling", "C11", [(CIRC, "        if self._qubits_simulated:\n            self._qubits_simulated = self.width\n\n    def get_entangled_indices", "        if self._qubits_simulated is not None and self._qubits_simulated > 0:\n            self._qubits_simulated = max(self._qubit_indices) + 1\n\n    def get_entangled_indices")]),
+    ("unitary-cache-key-complete", "C06", [(TSU, '        if method == "time":\n            return trotterize(self.qubit_hamiltonian, self.time*n_steps, self.n_trotter_steps, self.trotter_order, control=control)\n', '        key = (method, n_steps, str(control))\n        cache = self.__dict__.setdefault("_built", dict())\n        if key in cache:\n            return cache[key]\n        if method == "time":\n            cache[key] = trotterize(self.qubit_hamiltonian, self.time*n_steps, self.n_trotter_steps, self.trotter_order, control=control)\n            return cache[key]\n')]),
+    ("sympy-expectation-adjoint-spelling", "C02", [(TGSYMPY, "        eigenvalue = Dagger(prepared_state) * operator * prepared_state", "        eigenvalue = prepared_state.conjugate().T * operator * prepared_state")]),
+    ("complex-detection-spelling", "C02", [(BACK, '            if type(coef) in {complex, np.complex64, np.complex128}:', '            if type(coef) in (np.complex64, np.complex128, complex):', (0, 2)), (BACK, '            if type(coef) in {complex, np.complex64, np.complex128}:', '            if type(coef) in (np.complex64, np.complex128, complex):')]),
     ("angle-law-spelling", "C06", [(AU, "    angle = 2.*coef if coef >= 0. else 4*np.pi+2*coef", "    angle = 2.*coef + (0. if coef >= 0. else 4*np.pi)")]),
     ("cirq-branches-reordered", "C01", [(TCIRQ, '        elif gate_name in {"SWAP"}:\n            target_circuit.append(GATE_CIRQ[gate_name](qubit_list[gate.target[0]], qubit_list[gate.target[1]]))\n        elif gate_name in {"CSWAP"}:\n            next_gate = GATE_CIRQ[gate_name].controlled(num_controls)\n            target_circuit.append(next_gate(*control_list, qubit_list[gate.target[0]], qubit_list[gate.target[1]]))\n',
                                          '        elif gate_name in {"CSWAP"}:\n            next_gate = GATE_CIRQ[gate_name].controlled(num_controls)\n            target_circuit.append(next_gate(*control_list, qubit_list[gate.target[0]], qubit_list[gate.target[1]]))\n        elif gate_name in {"SWAP"}:\n            target_circuit.append(GATE_CIRQ[gate_name](qubit_list[gate.target[0]], qubit_list[gate.target[1]]))\n')]),
